@@ -736,6 +736,10 @@ def c03(ck):
                          "Ptrace", describe, traces=len(evs))
     if v.get("signals", 0) == 0:
         raise core.ToolError("vacuous: no signal was sent")
+    acc, tot = validate_ptrace_sequences(ck, runs, "the recorded tracer steps (hook events, sends, exits, final observation) of each single-dump schedule as a behaviour of Ptrace, kernel steps inferred", limit=40 if quick else 400)
+    if tot == 0:
+        raise core.ToolError("vacuous: no tracer-step sequence was validated")
+    ck.cov["ptrace_sequences_accepted"] = acc
     ck.cov["distinct_nontrivial"] = len(evs)
     ck.cov["signals_sent"] = v.get("signals", 0)
     ck.cov["rule"] = "one case = one environment schedule around one dump request (or one flood round of thousands of attach cycles); schedules are enumerated (point x signal kind x stop mode, failure index) plus seeded bursts"
@@ -745,3 +749,133 @@ def c03(ck):
                        "standard (non-queued) signals may coalesce: at least one and at most the number sent must be delivered",
                        "the kernel model of Ptrace.tla is an abstraction; only end-state violations are reported, never a disagreement with the kernel model"]
     return runs
+
+
+# ------------------------------------------------------------------------------------------ Ptrace sequence validation
+def ptrace_seq_events(run, d):
+    """One dump's recorded tracer steps as events of Trace_PtraceSeq (None when the scenario uses features the model lacks)."""
+    scn, report, end = run["scn"], run["report"], run["end"] or {}
+    steps = d.get("steps", [])
+    if any(s.get("k") == "send" and s.get("sig") != "rt" for s in steps) or end.get("pretraced") or scn["target"].get("leader_exits"):
+        return None
+    tids = sorted({report["pid"]} | {t["tid"] for t in report["threads"]})
+    tids.remove(report["pid"])
+    order = [report["pid"]] + tids
+    idx = {t: i + 1 for i, t in enumerate(order)}
+    sandbox = [idx[t["tid"]] for t in report["threads"] if t.get("mode") == "rsp0"]
+    evs = []
+    failspots = scn.get("faults", {}).get("failspots", [])
+    pending = None
+    phase = "init"
+    nstream = 0
+    enumerated = []
+    skip_detach = set()
+    sends = {}
+    for s in steps:
+        k, p = s.get("k"), s.get("p")
+        if k == "send":
+            evs.append({"ev": "Send", "t": idx[s["tid"]]})
+            sends[s["tid"]] = sends.get(s["tid"], 0) + 1
+        elif k == "exit" and s.get("gone"):
+            evs.append({"ev": "Exit", "t": idx[s["tid"]]})
+        elif k != "hook":
+            continue
+        elif p == "dump:begin":
+            if "StopProcess" in failspots:
+                evs += [{"ev": "StopProcess", "ok": False}, {"ev": "Poll", "stopped": False}]
+        elif p == "stop_process:sent":
+            evs.append({"ev": "StopProcess", "ok": True})
+        elif p == "stop_process:stopped":
+            evs.append({"ev": "Poll", "stopped": True})
+        elif p == "stop_process:timeout":
+            evs.append({"ev": "Poll", "stopped": False})
+        elif p == "enumerate:entry":
+            enumerated.append(idx.get(s["tid"], 0))
+        elif p == "enumerate:done":
+            evs.append({"ev": "Enumerate", "tids": enumerated})
+            phase = "attach"
+        elif p == "attach:before":
+            if pending is not None:
+                evs.append({"ev": "AttachFail", "t": pending})
+            pending = idx[s["tid"]]
+        elif p == "attach:ok":
+            evs.append({"ev": "AttachOk", "t": idx[s["tid"]]})
+            pending = None
+        elif p == "wait:status":
+            evs.append({"ev": "Wait", "t": idx[s["tid"]], "sig": "STOP" if s.get("stopsig") == 19 else "RT"})
+        elif p == "skip":
+            skip_detach.add(s["tid"])
+        elif p == "suspended":
+            if pending is not None:
+                evs.append({"ev": "AttachFail", "t": pending})
+                pending = None
+            evs.append({"ev": "Suspended", "n": s["n"]})
+            phase = "streams"
+        elif p == "flush" and phase == "streams":
+            evs.append({"ev": "Stream"})
+            nstream += 1
+        elif p == "dump:streams_done":
+            evs.append({"ev": "StreamsDone"})
+            phase = "resume"
+        elif p == "drop:begin":
+            if phase == "streams":
+                evs.append({"ev": "Abort"})
+                nstream += 1
+            phase = "drop"
+        elif p == "detach:before":
+            if s["tid"] in skip_detach and phase == "attach":
+                skip_detach.discard(s["tid"])
+            elif phase in ("resume", "drop"):
+                evs.append({"ev": "Detach", "t": idx[s["tid"]]})
+        elif p == "resume:end" and phase in ("resume", "drop"):
+            evs.append({"ev": "ResumeEnd"})
+        elif p == "continue_process":
+            evs.append({"ev": "SigCont"})
+    if phase != "drop" or not any(e["ev"] == "SigCont" for e in evs):
+        return None
+    after = end.get("after") or {}
+    tasks = {t["tid"]: t for t in after.get("tasks", [])}
+    counters = {c["tid"]: c for c in after.get("counters", []) if c.get("tid")}
+    n = len(order)
+    quiescent = all(str(t.get("sigpnd", "0")).strip("0") == "" for t in after.get("tasks", []))
+    evs.append({"ev": "Observe", "quiescent": quiescent, "alive": [t in tasks for t in order], "delivered": [counters.get(t, {}).get("rt", 0) for t in order],
+                "tracer": [tasks.get(t, {}).get("tracer", 0) for t in order], "stopped": [tasks.get(t, {}).get("state") in ("T", "t") for t in order]})
+    hdr = {"ev": "header", "n": n, "sandbox": sandbox, "maxsend": max([1] + list(sends.values())), "steps": nstream, "origin": run["id"]}
+    return [hdr] + evs
+
+
+def validate_ptrace_sequences(ck, runs, what, jobs=6, limit=40):
+    """Feeds each dump's tracer-step sequence to Trace_PtraceSeq (one TLC process per trace, in parallel).
+    A rejection is model drift (the end-state verdict of C03 does not depend on it)."""
+    from concurrent.futures import ThreadPoolExecutor
+    traces = []
+    for r in runs:
+        if len(r["dumps"]) != 1:
+            continue
+        evs = ptrace_seq_events(r, r["dumps"][0])
+        if evs:
+            tf = os.path.join(ck.work, f"seq_{len(traces)}.ndjson")
+            core.export_lines(evs, tf)
+            traces.append((r["id"], tf, len(evs)))
+    traces = traces[:limit]
+
+    def one(t):
+        res = core.run_tlc("Trace_PtraceSeq", "Trace_PtraceSeq", workers=1, timeout=300, env={"TRACE": t[1]}, tag=os.path.basename(t[1]),
+                           jvm="-Xss1g -Dtlc2.tool.queue.IStateQueue=StateDeque")
+        v = (res["printed"].get("VERDICT") or [None])[-1]
+        return t, res, v
+    with ThreadPoolExecutor(max_workers=jobs) as ex:
+        results = list(ex.map(one, traces))
+    accepted = 0
+    states = 0
+    for (tid, tf, n), res, v in results:
+        if res["error"] or v is None:
+            raise core.ToolError(f"Trace_PtraceSeq failed on {tf}: {res['error'] or res['raw_tail'][-600:]}")
+        states += res["distinct"]
+        if v["reached"] == v["events"]:
+            accepted += 1
+        else:
+            ck.drift(f"Trace_PtraceSeq: the recorded tracer steps of {tid} are not a behaviour of Ptrace: first unmatched event #{v['reached'] + 1} {json.dumps(v['firstUnmatched'])}")
+    ck.cov["trace_runs"].append({"trace_spec": "Trace_PtraceSeq", "what": what, "traces": len(traces), "accepted": accepted, "tlc_states": states})
+    ck.cov["traces_validated_against_impl"] += len(traces)
+    return accepted, len(traces)
